@@ -1424,7 +1424,7 @@ fn entries() -> Vec<Entry> {
         st_entry!("en_en", En<En<bool, u16>, Newt<i128>>),
         st_entry!("opt_rec2", Option<Rec2<u32, String>>),
         st_entry!("opt_vec_i32", Option<Vec<i32>>),
-        st_entry!("opt_opt_i32", Option<Option<i32>>),
+        opt_entry!("opt_opt_i32", Option<Option<i32>>),
         st_entry!("vec_rec2", Vec<Rec2<i16, Option<String>>>),
         st_entry!("vec_en", Vec<En<i64, f64>>),
         st_entry!("vec_tup", Vec<(String, u128)>),
